@@ -21,6 +21,7 @@ FEATURESETS = {
     "default": ["-p", "ts-rs", "-p", "ts-rs-macros"],
     "nodefault": ["-p", "ts-rs", "-p", "ts-rs-macros", "--no-default-features"],
     "nowarn": ["-p", "ts-rs", "-p", "ts-rs-macros", "--features", "ts-rs/no-serde-warnings,ts-rs/import-esm"],
+    "format": ["-p", "ts-rs", "-p", "ts-rs-macros", "--features", "ts-rs/format"],
     "allimpl": ["-p", "ts-rs", "-p", "ts-rs-macros", "--features",
                 "ts-rs/chrono-impl,ts-rs/bigdecimal-impl,ts-rs/uuid-impl,ts-rs/bson-uuid-impl,ts-rs/bytes-impl,"
                 "ts-rs/url-impl,ts-rs/indexmap-impl,ts-rs/ordered-float-impl,ts-rs/heapless-impl,ts-rs/semver-impl,"
